@@ -44,6 +44,10 @@ class Plane(BaseGeometry):
         """
         t = -rays.z / rays.N
 
+        # a ray that already lies on the plane (coincident surfaces) has
+        # t = 0 up to rounding, of either sign: it is not "behind" the ray
+        t = np.where(np.abs(t) < 1e-10, 0.0, t)
+
         # if rays do not hit plane, set to NaN
         t[t < 0] = np.nan
 
